@@ -353,8 +353,17 @@ def run_repoint(case, ctx, mon):
     for n, op in enumerate(evs[8:10]):
         both(pa, x, op, 200 + n)
         agree(mon, pa, [("A", A), ("view x after a failed re-point", x), ("second helper view of A", w)], kind, universe, cfg, ["via x after a failed re-point", op])
+    # (c) a view whose array attribute the user replaced by a private copy is attached to the same block again: it is a view again
+    y = attach("attach_existing_shm", cfg, A)
+    main = state.ARRAYS[kind][0]
+    setattr(y, main, getattr(y, main).copy())
+    mon.api(y.attach_existing_shm, A.shm.name)
+    for n, op in enumerate(evs[3:5]):
+        both(pa, A, op, 300 + n)
+    agree(mon, pa, [("A", A), ("view re-attached to the block it was already attached to, after its array had been replaced", y)], kind, universe, cfg,
+          "re-attach to the same name")
     path_a, path_b = "/dev/shm/" + A.shm.name.lstrip("/"), "/dev/shm/" + B.shm.name.lstrip("/")
-    del v, w, x
+    del v, w, x, y
     gc.collect()
     mon.check(os.path.exists(path_a) and os.path.exists(path_b), "dropping-a-view-keeps-the-segment", cfg=cfg)
     del A, B
@@ -362,6 +371,42 @@ def run_repoint(case, ctx, mon):
     mon.check(not os.path.exists(path_a) and not os.path.exists(path_b), "dropping-the-owner-removes-the-segment", cfg=cfg)
     mon.count("repoint_cases")
     mon.seen("repoint_kind", kind)
+    mon.nontrivial(True)
+
+
+def run_cyclic_garbage(case, ctx, mon):
+    """The owner is dropped while a slice of its public array is still referenced - but only from cyclic garbage that the
+    collector has not visited yet.  The library's own clean-up (collect, pause, close, unlink) must still remove the segment.
+    Runs with the modules' real gc and sleep."""
+    cfg = case["cfg"]
+    kind = cfg["kind"]
+    state.fast_del(False)
+    was = gc.isenabled()
+    gc.disable()
+    try:
+        owner = make_by(cfg, "factory", True)
+        owner.add(b"k", 2)
+        path = "/dev/shm/" + owner.shm.name.lstrip("/")
+        main = state.ARRAYS[kind][0]
+        cyc = [getattr(owner, main)[:1]]
+        cyc.append(cyc)
+        del cyc  # garbage now, reachable only through its own cycle
+        import contextlib
+        import io
+
+        with contextlib.redirect_stderr(io.StringIO()):
+            del owner
+        gc.collect()
+        leaked = os.path.exists(path)
+        if leaked:
+            os.unlink(path)
+        mon.check(not leaked, "dropping-the-owner-removes-the-segment", cfg=cfg, how="a slice of the owner's array was alive only in uncollected cyclic garbage")
+    finally:
+        if was:
+            gc.enable()
+        state.fast_del(True)
+    mon.count("cyclic_garbage_cases")
+    mon.seen("cyclic_garbage_kind", kind)
     mon.nontrivial(True)
 
 
@@ -460,6 +505,8 @@ def gen_cases(ctx):
         yield c
         if i % 50 < 5:
             yield {"scenario": "forked-owner", "cfg": gen_cfg(rng, state.ALL_KINDS[i % 5])}
+        if i < 5:
+            yield {"scenario": "cyclic-garbage", "cfg": gen_cfg(rng, state.ALL_KINDS[i % 5])}
 
 
 def run_any(case, ctx, mon):
@@ -468,6 +515,8 @@ def run_any(case, ctx, mon):
         run_reattached_owner(case, ctx, mon)
     elif sc == "repoint":
         run_repoint(case, ctx, mon)
+    elif sc == "cyclic-garbage":
+        run_cyclic_garbage(case, ctx, mon)
     elif sc == "forked-owner":
         run_forked_owner(case, ctx, mon)
     else:
@@ -503,6 +552,7 @@ def floors(mon, ctx):
             mon.floor(f"unaligned cases of {kind}", mon.counters[f"unaligned_cases:{kind}"], 1)
     mon.floor("owners re-pointed at another block before being dropped (kinds)", len(mon.classes["reattached_owner_kind"]), 5)
     mon.floor("owners created and dropped in a forked child (kinds)", len(mon.classes["forked_owner_kind"]), 5)
+    mon.floor("kinds whose owner was dropped with a slice alive in cyclic garbage", len(mon.classes["cyclic_garbage_kind"]), 5)
     mon.floor("kinds with re-pointed views", len(mon.classes["repoint_kind"]), 5)
     mon.floor("deletion orders", len(mon.classes["drop_order"]), 2)
     mon.floor("operations through a view", mon.counters["ops_via:view"], 100)
